@@ -291,6 +291,13 @@ func RunC15(tier string) int {
 	}
 	pools := map[int]*core.Pool{}
 	var planStats []map[string]any
+	// archives with at least two directory entries are also run under the map-order engine (E4)
+	mapArgs := map[int][]any{}
+	mapDesc := map[int][]string{}
+	mapCap := 6000
+	if thorough {
+		mapCap = 60000
+	}
 	for _, pl := range plans {
 		if time.Now().After(deadline) {
 			rep.Exhaustive = false
@@ -319,6 +326,10 @@ func RunC15(tier string) int {
 				var out C15Out
 				core.MustOut(r, &out)
 				rep.Evaluations++
+				if nd := countKind(args[i].Entries, "dir"); nd >= 2 && len(mapArgs[pl.uid]) < mapCap {
+					mapArgs[pl.uid] = append(mapArgs[pl.uid], args[i])
+					mapDesc[pl.uid] = append(mapDesc[pl.uid], fmt.Sprintf("format=%v uid=%d archive [%s]", tar.Format(pl.format), pl.uid, tarx.Names(args[i].Entries)))
+				}
 				desc := fmt.Sprintf("format=%v uid=%d archive [%s] err=%q", tar.Format(pl.format), pl.uid, tarx.Names(args[i].Entries), out.Err)
 				switch {
 				case out.BuildErr != "":
@@ -358,6 +369,19 @@ func RunC15(tier string) int {
 		planStats = append(planStats, map[string]any{"format": fmt.Sprint(tar.Format(pl.format)), "uid": pl.uid, "alphabet": len(alpha), "depth_completed": st.Depth,
 			"depth_planned": pl.depth, "states": st.States, "transitions": st.Transitions, "terminal": st.Terminal, "capped": st.Capped})
 		fmt.Printf("  plan format=%v uid=%d alphabet=%d depth=%d/%d: transitions=%d terminal=%d capped=%v\n", tar.Format(pl.format), pl.uid, len(alpha), st.Depth, pl.depth, st.Transitions, st.Terminal, st.Capped)
+	}
+	{
+		st := &mapOrdStats{}
+		for _, uid := range []int{0, 65534} {
+			uid := uid
+			exploreMapOrders(uid, "c15", mapArgs[uid], 1, func(_ int, raw json.RawMessage) string { return canonArena(raw) },
+				func(i int, choices []int, base, got string, arg MapOrdArg) {
+					rep.Violation("slug.Unpack/result-depends-on-map-iteration-order", fmt.Sprintf("%s :: with map orders %v: %s", mapDesc[uid][i], choices, firstDiff(base, got)), "mapord", arg)
+				}, st)
+		}
+		rep.Evaluations += st.Runs
+		rep.Extra["map_orders"] = st.summary()
+		fmt.Printf("  map-order part: archives=%d runs=%d choice points=%d differing=%d\n", st.Tasks, st.Runs, st.Points, st.Differing)
 	}
 	rep.Extra["plans"] = planStats
 	rep.Rule = "BFS (no state merging: the history is the state) over well-formed entry sequences × tar format × uid; each prefix is unpacked by the real code and compared with a sequential reference interpreter " +
@@ -400,4 +424,14 @@ func mismatchClass(ms []string) string {
 	}
 	sort.Strings(ks)
 	return strings.Join(ks, "+")
+}
+
+func countKind(es []tarx.Entry, kind string) int {
+	n := 0
+	for _, e := range es {
+		if e.Kind == kind {
+			n++
+		}
+	}
+	return n
 }
